@@ -288,17 +288,22 @@ impl<'t, 'd> Pr<'t, 'd> {
     }
 
     /// a line comment on a line of its own, in front of the statement that is about to be written
-    /// (it becomes leading trivia of that statement's first token); no-op without a layout
-    pub fn own_line_comment(&mut self) {
+    /// (it becomes leading trivia of that statement's first token), the line of the statement
+    /// started; false = nothing written (no layout, no comments, first token of the file)
+    pub fn own_line_comment(&mut self) -> bool {
         if !self.active() || self.last == 0 {
-            return;
+            return false;
         }
         if !self.lay.as_ref().map(|l| l.opts.comments).unwrap_or(false) {
-            return;
+            return false;
         }
         self.nl();
         self.put_indent(0);
         self.line_comment();
+        self.nl();
+        self.put_indent(0);
+        self.spaced = true;
+        true
     }
 
     /// `-- text` ; the caller must emit a line end right after
